@@ -228,7 +228,7 @@ def tasks_for(tier):
             ('law', dict(levy='none', size=(1,), cache_size=0), 2, 2, mp, to),
             ('law', dict(levy='none', size=(1,), cache_size=45), 1, 3, mp, to),
             ('law', dict(levy='space-time', size=(2,), sym_ends=True, pinned=True, supply_W=True), 0, 2, mp, to),
-            ('law', dict(levy='none', size=(1,), tol=0.1, halfway=True), 0, 2, mp, to),
+            ('law', dict(levy='none', size=(1,), tol=0.1, halfway=True, t1=Fraction(1, 2)), 0, 2, mp, to),
         ]
     return T
 
